@@ -147,7 +147,7 @@ pub fn num_f64(out: &mut Out, v: &Vocab, b: &Beh, rng: &mut Rng, max_assign: usi
     if b.verdict != "accept" || !b.renderable || b.numnum { return; }
     if !kinds_ok(b, &v.common["floatKinds"]) { return; }
     let tree = b.tree.as_ref().unwrap();
-    let lits: Vec<String> = ["2", "3", "0.5", "5", "1.5", "7", "0", "1", "2.5", "10", "0.1", "20", "21", "4", "0.25", "63", "9007199254740992", "3037000500", "170", "6"].iter().map(|s| s.to_string()).collect();
+    let lits: Vec<String> = ["2", "3", "0.5", "5", "1.5", "7", "0", "1", "2.5", "10", "0.1", "20", "21", "4", "0.25", "63", "9007199254740992", "3037000500", "170", "6", "4294967296", "4294967297", "4294967295", "2147483648"].iter().map(|s| s.to_string()).collect();
     let nlit = b.kinds.iter().filter(|k| *k == "num").count();
     let phs: Vec<(Number, f64)> = vec![(Number::Integer(3), 3.0), (Number::Float(-2.5), -2.5), (Number::Integer(0), 0.0), (Number::Float(0.5), 0.5), (Number::Integer(-7), -7.0),
                                        (Number::Integer(20), 20.0), (Number::Float(1e15), 1e15), (Number::Integer(1 << 53), TWO53)];
